@@ -161,7 +161,7 @@ func init() {
 			call: func(w *world, a *rlwe.Ciphertext, b any, out *rlwe.Ciphertext, arg [3]int) (*rlwe.Ciphertext, error) {
 				return w.bgv.ApplyEvaluationKeyNew(a, w.swk)
 			}},
-		&opDesc{impl: "rlwe.PartialTracesSum", name: "InnerSum", scheme: "bgv", aDegs: d1, natural: natSame, gal: galInnerSum,
+		&opDesc{name: "InnerSum", scheme: "bgv", aDegs: d1, natural: natSame, gal: galInnerSum,
 			call: func(w *world, a *rlwe.Ciphertext, b any, out *rlwe.Ciphertext, arg [3]int) (*rlwe.Ciphertext, error) {
 				return nil, w.bgv.InnerSum(a, arg[0], arg[1], out)
 			}},
